@@ -24,12 +24,14 @@
       binds the REAL cursors to WalkGet.
 
    Unspecified (statement silent; both outcomes accepted):
-     - a command with seq < upper is deleted from the db while a cursor is live: everything that cursor
-       returns afterwards (flag stale) -- the real db cursor reads the live db, a snapshotting one would not;
+     - the world changes under a live cursor in a way that could change its view -- a command with
+       seq < upper is deleted from the db, or this session adds a command: everything that cursor returns
+       afterwards (flag stale).  The real db cursor reads the live db and the real session cursor holds a
+       snapshot; a fully snapshotting or a fully live implementation would serve the statement as well.
+       (Additions by OTHER sessions under a live cursor are specified: they must stay invisible.)
      - deleting from the db a command that this session added (not generated: the session list keeps it);
      - store errors (a failing db) and negative sequence numbers.
-   Fixed by the specification (reading of "the session's view"): the view of a cursor is the view at
-   the moment the cursor is made; commands this session adds later are seen by later cursors only. *)
+   A new cursor always sees the session's view of the moment it is made. *)
 EXTENDS HistStore, FiniteSetsExt
 
 EOH == [ok |-> FALSE, n |-> 0, t |-> <<>>]
